@@ -196,6 +196,118 @@ Proof.
   - intros k. by rewrite ssort_perm, elem_of_elements, keys_at_elem.
 Qed.
 
+(** ** The visit shows exactly the nodes below the start group *)
+
+Definition wf_t (T : tree) : Prop :=
+  ∀ s par, is_Some (T !! (s :: par)) → ∃ te, tget T par = Some te ∧ tholds par te s = true.
+
+Lemma sim_wf R T : Sim R T → wf_t T.
+Proof.
+  intros (HI & HR & Hroot) s par [e He].
+  pose proof (HR (s :: par)) as H1. cbn [tget] in H1. rewrite He in H1. unfold vget in H1.
+  rewrite status_cons in H1.
+  destruct (status R par) as [[lb e0]|] eqn:Hs; [|done].
+  destruct (holds par e0 s) eqn:Hh; [|done].
+  pose proof (HR par) as H2. unfold vget in H2. rewrite Hs in H2.
+  destruct (tget T par) as [te|] eqn:Ht.
+  - exists te. split; [done|]. by rewrite <- (holds_tholds par e0 te lb s H2).
+  - destruct e0; cbn in H2; try done. unfold holds in Hh. by destruct par as [|[[] ?] ?].
+Qed.
+
+Lemma wf_suffix T (a b : path) : wf_t T → is_Some (T !! (a ++ b)) → b ≠ [] → is_Some (T !! b).
+Proof.
+  intros Hwf. induction a as [|s a IH]; [done|]. intros Hs Hb. apply IH; [|done].
+  destruct (Hwf s (a ++ b) Hs) as (te & Ht & _).
+  destruct (a ++ b) eqn:E; [by destruct a, b|]. cbn in Ht. eauto.
+Qed.
+
+Lemma tholds_false_seg (p : path) te (k k' : string) :
+  tholds p te (false, k) = tholds p te (false, k').
+Proof. done. Qed.
+
+Lemma node_path_app (a b : path) : is_node_path (a ++ b) = is_node_path a && is_node_path b.
+Proof. unfold is_node_path. apply forallb_app. Qed.
+
+Lemma t_visit_sound T : ∀ fuel (p x : path) e,
+  (x, e) ∈ t_visit_go fuel T p →
+  ∃ r, r ≠ [] ∧ is_node_path r = true ∧ x = r ++ p ∧ T !! x = Some e.
+Proof.
+  induction fuel as [|f IH]; intros p x e Hin; [by apply elem_of_nil in Hin|].
+  cbn in Hin. destruct (t_children T p false) as [ks|]; [|by apply elem_of_nil in Hin].
+  apply elem_of_list_In, in_flat_map in Hin as (k & _ & Hin). apply elem_of_list_In in Hin.
+  cbn [tget] in Hin.
+  destruct (T !! ((false, k) :: p)) as [e1|] eqn:E1; [|by apply elem_of_nil in Hin].
+  apply elem_of_cons in Hin as [[= -> ->]|Hin].
+  - exists [(false, k)]. done.
+  - apply IH in Hin as (r & Hr & Hn & -> & Hx). exists (r ++ [(false, k)]).
+    split; [by destruct r|]. split; [by rewrite node_path_app, Hn|].
+    by rewrite <- app_assoc.
+Qed.
+
+Lemma t_visit_complete T : wf_t T → ∀ (r : path) fuel (p : path) e,
+  length r ≤ fuel → r ≠ [] → is_node_path r = true → T !! (r ++ p) = Some e →
+  (r ++ p, e) ∈ t_visit_go fuel T p.
+Proof.
+  intros Hwf. induction r as [|s r' IH] using rev_ind; intros fuel p e Hlen Hne Hnode Hx; [done|].
+  rewrite app_length in Hlen. cbn in Hlen. destruct fuel as [|f]; [lia|].
+  rewrite node_path_app in Hnode. apply andb_prop in Hnode as [Hn' Hs]. cbn in Hs.
+  destruct s as [[] k]; [done|]. rewrite <- app_assoc in Hx |- *. cbn [app] in Hx |- *.
+  assert (Hsp : is_Some (T !! ((false, k) :: p))) by (eapply (wf_suffix T r'); eauto).
+  destruct (Hwf _ _ Hsp) as (te & Htp & Hth). destruct Hsp as [e1 He1].
+  cbn [t_visit_go]. unfold t_children. rewrite Htp.
+  rewrite (tholds_false_seg p te _ k), Hth.
+  apply elem_of_list_In, in_flat_map. exists k. split.
+  - apply elem_of_list_In. rewrite ssort_perm, elem_of_elements, keys_at_elem. eauto.
+  - apply elem_of_list_In. cbn [tget]. rewrite He1.
+    destruct r' as [|s' r''] eqn:Er.
+    + cbn in Hx |- *. rewrite He1 in Hx. injection Hx as ->. left.
+    + right. rewrite <- Er in *. apply IH; [lia|by subst|done|done].
+Qed.
+
+(** Depth is bounded by the number of entries. *)
+Lemma chain_length (T : tree) : ∀ (r p : path),
+  (∀ r1 r2, r = r1 ++ r2 → r2 ≠ [] → is_Some (T !! (r2 ++ p))) → length r ≤ size T.
+Proof.
+  intros r. revert T. induction r as [|s r IH]; intros T p Hch; [cbn; lia|].
+  assert (Hx : is_Some (T !! ((s :: r) ++ p))) by (apply (Hch []); done).
+  destruct Hx as [e He].
+  assert (Hsz : size T = S (size (delete ((s :: r) ++ p) T))).
+  { rewrite <- (insert_delete T _ _ He) at 1. rewrite map_size_insert_None; [done|]. apply lookup_delete. }
+  rewrite Hsz. cbn [length]. apply le_n_S. apply (IH _ p).
+  intros r1 r2 -> Hr2. rewrite lookup_delete_ne.
+  - apply (Hch (s :: r1)); done.
+  - intros Heq. apply (f_equal length) in Heq. cbn in Heq. rewrite !app_length in Heq. lia.
+Qed.
+
+Lemma wf_chain T (r p : path) : wf_t T → is_Some (T !! (r ++ p)) →
+  ∀ r1 r2, r = r1 ++ r2 → r2 ≠ [] → is_Some (T !! (r2 ++ p)).
+Proof.
+  intros Hwf Hx r1 r2 -> Hr2. rewrite <- app_assoc in Hx.
+  eapply wf_suffix; eauto. by destruct r2.
+Qed.
+
+Lemma t_visit_exact T (p x : path) e : wf_t T →
+  (x, e) ∈ t_visit_go (S (size T)) T p ↔
+  ∃ r, r ≠ [] ∧ is_node_path r = true ∧ x = r ++ p ∧ T !! x = Some e.
+Proof.
+  intros Hwf. split; [apply t_visit_sound|].
+  intros (r & Hr & Hn & -> & Hx). apply t_visit_complete; try done.
+  etrans; [|apply Nat.le_succ_diag_r]. apply (chain_length T r p).
+  apply wf_chain; eauto.
+Qed.
+
+Lemma visit_exact R T (p x : path) e : Sim R T →
+  (x, e) ∈ m_visit_go (S (size (viewmap R))) R p ↔
+  ∃ r, r ≠ [] ∧ is_node_path r = true ∧ x = r ++ p ∧ vget R x = Some e.
+Proof.
+  intros HS. rewrite (viewmap_eq R T HS), (visit_go_equiv R T HS).
+  rewrite (t_visit_exact T p x e (sim_wf R T HS)).
+  destruct HS as (_ & HR & _).
+  split; intros (r & Hr & Hn & -> & Hx); exists r; (split; [done|split; [done|split; [done|]]]).
+  - rewrite HR. by destruct r.
+  - rewrite HR in Hx. by destruct r.
+Qed.
+
 (** ** Non-vacuity: the adaptive client takes different branches depending on the answers,
     and gives the same trace under different schedules. *)
 
